@@ -60,7 +60,7 @@ def gen_recipe(rng, name: str, want: dict | None = None) -> dict:
     has_a = pick("cstate", 0.7)
     stochastic = pick("stochastic", 0.5)
     use_filter = pick("filter", 0.35)
-    allow_mixed = bool(want.get("allow_sparse_and_dense_choice", False))
+    allow_mixed = bool(want.get("allow_sparse_and_dense_choice", True))
 
     # ---- discrete choices ----------------------------------------------------------
     n_dc = rng.choice([1, 1, 2]) if not has_a else rng.choice([0, 1, 1, 2])
@@ -70,7 +70,7 @@ def gen_recipe(rng, name: str, want: dict | None = None) -> dict:
             n_dc = 1
     dchoices = []
     for nm in ["w", "q"][:n_dc]:
-        dchoices.append({"name": nm, "n": rng.choice([2, 2, 3])})
+        dchoices.append({"name": nm, "n": rng.choice([2, 3, 3, 4]) if (use_filter and nm == "w") else rng.choice([2, 2, 3])})
 
     # ---- continuous state ----------------------------------------------------------
     cstate = None
@@ -103,7 +103,7 @@ def gen_recipe(rng, name: str, want: dict | None = None) -> dict:
     # ---- discrete states -----------------------------------------------------------
     dstates = []
     want_l = use_filter or rng.random() < 0.5
-    want_h = stochastic or (not has_a and not want_l) or rng.random() < 0.35
+    want_h = stochastic or (not has_a and not want_l) or rng.random() < (0.6 if use_filter else 0.35)
     if want_l:
         nl = rng.choice([2, 2, 3])
         if dchoices:
@@ -144,8 +144,23 @@ def gen_recipe(rng, name: str, want: dict | None = None) -> dict:
     # ---- filter --------------------------------------------------------------------
     filt = None
     if use_filter:
-        kind = rng.choice(["lock", "lock", "lock_period"]) if n_periods > 1 else "lock"
-        filt = {"kind": kind, "choice": "w", "state": "l", "from_period": rng.randint(1, max(1, n_periods - 1))}
+        ld = next(d for d in dstates if d["name"] == "l")
+        hdet = next((d for d in dstates if d["name"] == "h" and d["trans"]["kind"] == "det"), None)
+        hany = next((d for d in dstates if d["name"] == "h"), None)
+        u = rng.random()
+        step = rng.choice([1, 1, 2, 3])
+        choice2 = "q" if (len(dchoices) == 2 and rng.random() < 0.4) else None
+        if hdet is not None and u < 0.45:
+            # two restricted states; the corner (and possibly more) of their product is excluded
+            hdet["trans"]["rule"] = "keep"
+            K = ld["n"] + hdet["n"] - 3
+            if ld["n"] == 3 and rng.random() < 0.5:
+                K -= 1
+            filt = {"kind": "pair", "choice": "w", "choice2": choice2, "state": "l", "state2": "h", "K": K, "from_period": 1, "step": step}
+        else:
+            kind = rng.choice(["lock", "lock", "lock_period"]) if n_periods > 1 else "lock"
+            st = "h" if (hany is not None and rng.random() < 0.3) else "l"
+            filt = {"kind": kind, "choice": "w", "choice2": choice2, "state": st, "from_period": rng.randint(1, max(1, n_periods - 1)), "step": step}
 
     # ---- auxiliaries, constraints, coefficients ----------------------------------------
     has_age = rng.random() < 0.5
@@ -344,6 +359,15 @@ def render(recipe: dict) -> tuple[str, dict]:
                 args.append("income")
                 expr += " + 0.5 * income"
             add("next_a", args, ["r"], [f"return xp.clip({expr}, {_lit(lo)}, {_lit(hi)})"])
+    pair = recipe["filter"] if (recipe["filter"] and recipe["filter"]["kind"] == "pair") else None
+
+    def add_next(name, args, params, body_expr):
+        if pair and name == "next_" + pair["state"]:
+            if pair["state2"] not in args:
+                args = [*args, pair["state2"]]
+            body_expr = f"xp.minimum({body_expr}, {pair['K']} - {pair['state2']})"
+        add(name, args, params, [f"return {body_expr}"])
+
     for d in recipe["dstates"]:
         nm, n, tr = d["name"], d["n"], d["trans"]
         if tr["kind"] == "stoch":
@@ -354,19 +378,19 @@ def render(recipe: dict) -> tuple[str, dict]:
         rule = tr["rule"]
         w = first_dc
         if rule == "copy" and w:
-            add(f"next_{nm}", [w], [], [f"return xp.minimum({w}, {n - 1})"])
+            add_next(f"next_{nm}", [w], [], f"xp.minimum({w}, {n - 1})")
         elif rule == "absorb" and w:
-            add(f"next_{nm}", [nm, w], [], [f"return xp.maximum({nm}, xp.minimum({w}, {n - 1}))"])
+            add_next(f"next_{nm}", [nm, w], [], f"xp.maximum({nm}, xp.minimum({w}, {n - 1}))")
         elif rule == "cycle" and w:
-            add(f"next_{nm}", [nm, w, "_period"], [], [f"return ({nm} + {w} + _period) % {n}"])
+            add_next(f"next_{nm}", [nm, w, "_period"], [], f"({nm} + {w} + _period) % {n}")
         elif rule == "age":
-            add(f"next_{nm}", [nm], [], [f"return xp.minimum({nm} + 1, {n - 1})"])
+            add_next(f"next_{nm}", [nm], [], f"xp.minimum({nm} + 1, {n - 1})")
         elif rule == "flip" and "l" in ds and nm != "l":
-            add(f"next_{nm}", [nm, "l"], [], [f"return ({nm} + l) % {n}"])
+            add_next(f"next_{nm}", [nm, "l"], [], f"({nm} + l) % {n}")
         elif rule in ("cycle0", "cycle", "copy", "absorb", "flip"):
-            add(f"next_{nm}", [nm, "_period"], [], [f"return ({nm} + 1 + _period) % {n}"])
+            add_next(f"next_{nm}", [nm, "_period"], [], f"({nm} + 1 + _period) % {n}")
         else:  # keep
-            add(f"next_{nm}", [nm], [], [f"return {nm}"])
+            add_next(f"next_{nm}", [nm], [], f"{nm}")
 
     # ---- constraints --------------------------------------------------------------------
     for con in recipe["constraints"]:
@@ -385,15 +409,20 @@ def render(recipe: dict) -> tuple[str, dict]:
     filt = recipe["filter"]
     if filt:
         w, l = filt["choice"], filt["state"]
+        w2 = filt.get("choice2")
+        top = _dchoice(recipe, w)["n"] - 1 + ((_dchoice(recipe, w2)["n"] - 1) if w2 else 0)
+        lhs = w + (f" + {w2}" if w2 else "")
+        # threshold 0 for the first label of the state (everything passes), increasing with the
+        # state, never above the largest choice (which therefore always passes)
+        cond = f"{lhs} >= xp.minimum({l} * {filt.get('step', 1)}, {top})"
+        fargs = [w] + ([w2] if w2 else []) + [l]
         if filt["kind"] == "lock":
-            add("lock_filter", [w, l], [], [f"return xp.logical_or({l} == 0, {w} >= 1)"])
+            add("lock_filter", fargs, [], [f"return {cond}"])
+        elif filt["kind"] == "pair":
+            l2 = filt["state2"]
+            add("lock_filter", [*fargs, l2], [], [f"return xp.logical_and({l} + {l2} <= {filt['K']}, {cond})"])
         else:
-            add(
-                "lock_filter",
-                [w, l, "_period"],
-                [],
-                [f"return xp.logical_or(xp.logical_or({l} == 0, {w} >= 1), _period >= {filt['from_period']})"],
-            )
+            add("lock_filter", [*fargs, "_period"], [], [f"return xp.logical_or({cond}, _period >= {filt['from_period']})"])
 
     # ---- declaration order ----------------------------------------------------------------
     names = list(funcs)
@@ -553,6 +582,10 @@ def gen_agent(rng, recipe: dict, on_grid_bias: float = 0.4) -> dict:
     ag = {}
     for d in recipe["dstates"]:
         ag[d["name"]] = rng.randrange(d["n"])
+    f = recipe.get("filter")
+    if f and f["kind"] == "pair":
+        # initial states must lie in the (filter-)feasible part of the state space
+        ag[f["state"]] = min(ag[f["state"]], f["K"] - ag[f["state2"]])
     cs = recipe["cstate"]
     if cs:
         u = rng.random()
@@ -588,3 +621,30 @@ def expand_agents(recipe: dict, agents):
         rng = random.Random(agents["gen_seed"])
         return [gen_agent(rng, recipe, agents.get("on_grid_bias", 0.4)) for _ in range(agents["n"])]
     return agents
+
+
+def perturb_params(rng, recipe: dict, meta: dict, base: dict) -> dict:
+    """A neighbour of ``base``: one or two leaves changed, everything else identical."""
+    import copy
+
+    out = copy.deepcopy(base)
+    leaves = [("beta",)]
+    for fn in meta["functions"]:
+        for pn in meta["fn_params"][fn]:
+            leaves.append((fn, pn))
+    for st in meta["stochastic"]:
+        leaves.append(("shocks", st))
+    # beta is the only top-level leaf: change it only sometimes
+    pool = [lf for lf in leaves if lf != ("beta",)] or leaves
+    chosen = rng.sample(pool, min(len(pool), rng.choice([1, 1, 2])))
+    if rng.random() < 0.15:
+        chosen.append(("beta",))
+    fresh = gen_params(rng, recipe, meta)
+    for lf in chosen:
+        if lf == ("beta",):
+            out["beta"] = fresh["beta"]
+        elif lf[0] == "shocks":
+            out["shocks"][lf[1]] = fresh["shocks"][lf[1]]
+        else:
+            out[lf[0]][lf[1]] = fresh[lf[0]][lf[1]]
+    return out
